@@ -116,4 +116,26 @@ theorem C01_start_tasks_name_no_predecessor (spec : WfSpec) (parentCtx inputs : 
       obtain ⟨e, he, _, e2, _⟩ := hne q (List.mem_of_getElem? hq) _ hm
       exact hroot e he (by rw [e2, hid])
 
+/-- **C01**: a satisfied transition into a split task (no join, several inbound transitions, on no
+    cycle) gets a route of its own at every traversal: the route returned is a new index -- the
+    length of the route table before -- and the table grows by exactly the old route's transitions
+    plus this one.  Two traversals of the same transition can therefore never land on the same
+    (task, route) instance -/
+theorem C01_split_gets_fresh_route (e : Edge) (r r' : Nat) (c c' : Cond) (old : List TransId)
+    (hs : c.spec.isSplit e.dst = true) (hc : c.graph.inCycle e.dst = false)
+    (ho : c.st.routes[r]? = some old) (hn : old.contains ((e.src, e.key) : TransId) = false)
+    (h : evaluateRoute e r c = (.ok r', c')) :
+    r' = c.st.routes.length ∧ c'.st.routes = c.st.routes ++ [old ++ [(e.src, e.key)]] := by
+  unfold evaluateRoute at h
+  obtain ⟨c0, c1, hg, h1⟩ := M.bind_ok h
+  obtain ⟨e1, e2⟩ := get_ok hg
+  subst e1 e2
+  simp only [hs, hc, Bool.not_true, Bool.or_false, ho, hn] at h1
+  obtain ⟨u, c2, hm, h2⟩ := M.bind_ok h1
+  obtain ⟨hr, hcc⟩ := pure_ok h2
+  subst hcc
+  simp only [M.modifySt, M.modify, Prod.mk.injEq, true_and] at hm
+  subst hm
+  exact ⟨hr.symm, rfl⟩
+
 end Orq
